@@ -23,6 +23,7 @@ the worker (F161) or panic (F162): see `Compio.Cex.C16`; the theorems below carr
 -/
 import Compio.Lemmas.QuicWakers
 import Compio.Lemmas.QuicLoops
+import Compio.Lemmas.QuicEndpoint
 
 namespace Compio.Props.C16
 open Compio Compio.QuicWakers Compio.Gen.QuicWakers
@@ -241,5 +242,45 @@ example :
 example : (writeAllChunks [[1, 2], [], [3, 4, 5]] 0 [.limit 1, .blocked, .limit 3, .limit 9]) =
     (.ready (), [1, 2, 3, 4, 5], [[], [], []]) := by
   simp [writeAllChunks, popChunks]
+
+/-! ## 5. the endpoint level (`wait_incoming`, `Endpoint::close`), over `Compio.Gen.QuicEndpoint` -/
+
+section Endpoint
+open Compio.QuicEndpoint Compio.Gen.QuicEndpoint
+
+/-- every table a `wait_incoming()` future registers in is drained by `Endpoint::close` ITSELF — not by the worker
+    loop, which only iterates when a datagram or an endpoint event arrives (an endpoint without live connection
+    gets neither) -/
+theorem every_endpoint_registration_table_is_drained_by_close :
+    ∀ r : EReg, eRegistersIn r ∈ closeDrains := by
+  intro r; cases r <;> decide
+
+theorem endpoint_close_drains_every_table : ∀ t : ETbl, t ∈ closeDrains := all_etables_drained_by_close
+
+/-- the registration site answers `None` without registering once the endpoint is closed, and a new connection
+    attempt is only queued while it is open -/
+theorem endpoint_registration_checks_closed :
+    (∀ r : EReg, eRegChecksClosed r = true) ∧ newConnectionQueuedOnlyWhenOpen = true ∧
+      ("Endpoint::wait_incoming", EReg.endpointStatePollIncoming) ∈ eApiOf := by
+  refine ⟨fun r => by cases r <;> rfl, by decide, by decide⟩
+
+/-- `Endpoint::close` on an open endpoint, in ANY state (no connection, drained connections, live connections —
+    the model has no access to them): every parked `wait_incoming()` task is woken, every table is empty, and a
+    (re-)poll yields `None` -/
+theorem endpoint_close_releases_every_waiter (e : Ep) (h : e.closed = false) :
+    (∀ t, e.close.tabs t = []) ∧ (∀ w t, w ∈ e.tabs t → w ∈ e.close.woken) ∧
+      ∀ w, e.close.pollIncoming .endpointStatePollIncoming w = (e.close, .none) :=
+  ⟨(close_open e h).1, (close_open e h).2.2.2, fun w => poll_after_close _ (close_sets_closed e) w⟩
+
+/-- for every history: once the endpoint is closed nobody is parked in `incoming_wakers`, whether or not the worker
+    loop ever runs again -/
+theorem closed_endpoint_has_no_parked_waiter (ops : List EOp) (h : (Ep.init.run ops).closed = true) :
+    ∀ t, (Ep.init.run ops).tabs t = [] :=
+  einv_run ops Ep.init einv_init h
+
+example : (Ep.init.run [.poll 1, .poll 2, .datagram true, .poll 3, .close]).woken = [1, 2] ∧
+    (Ep.init.run [.poll 1, .poll 2, .datagram true]).tabs .incomingWakers = [2] := by decide
+
+end Endpoint
 
 end Compio.Props.C16
